@@ -36,6 +36,7 @@ Step(e) ==
       [] e.op = "Delete" -> Delete(e.x[1], e.x[2])
       [] e.op = "LoadBuild" -> LoadBuild(e.rows, IF e.g >= 0 THEN e.g ELSE gen)
       [] e.op = "NewRow" -> NewRow(e.row, IF e.g >= 0 THEN e.g ELSE gen)
+      [] e.op = "LoadInto" -> LoadInto(e.rows, IF e.g >= 0 THEN e.g ELSE gen)
       [] e.op = "Input" -> UNCHANGED mvars /\ res' = "none"          \* the loader accumulates; built models do not change
       [] e.op = "BuildFocus" -> LoadBuild(stmts, IF e.g >= 0 THEN e.g ELSE gen)
       [] e.op = "Foreign" -> UNCHANGED mvars /\ res' = e.res           \* a call on another metamodel of the same loader
@@ -147,7 +148,7 @@ SchemaOK(e) ==
 \* after the rejected creation of an instance with an attribute of unknown type only
 \* the outcome is fixed by the property (the trace ends there)
 \* A metamodel's id generator is its own: what peek() shows changes only through calls that draw ids from it.
-DrawsIds(e) == e.op \in {"New", "NewRow", "NewUnknown", "BuildFocus", "LoadBuild", "SaveLoad", "GenNext", "Adopt"}
+DrawsIds(e) == e.op \in {"New", "NewRow", "NewUnknown", "BuildFocus", "LoadBuild", "LoadInto", "SaveLoad", "GenNext", "Adopt"}
 PeekOK(e) == "peek" \notin DOMAIN e \/ lastpeek = "" \/ DrawsIds(e) \/ e.peek = lastpeek
 Conform(e) == IF e.op = "NewUnknown" \/ "nocheck" \in DOMAIN e THEN (IF res = e.res THEN "" ELSE "res") ELSE FirstBad(<<
     <<"res", ResOK(e)>>,
